@@ -111,6 +111,10 @@ func (s Segment) Recover(params index.Params) error {
 	}
 	defer func() { _ = log.Close() }()
 
+	// a stale temp from an interrupted recovery would be appended to
+	if err := os.Remove(s.Log + ".recover"); err != nil && !errors.Is(err, os.ErrNotExist) {
+		return fmt.Errorf("restore remove stale temp: %w", err)
+	}
 	restore, err := message.OpenWriter(s.Log+".recover", s.Offset, log.Version())
 	if err != nil {
 		return err
